@@ -3,7 +3,7 @@
     hash function standing for SHA-256 and over every iteration order of the two HashMap
     levels of the search (any function returning a permutation). *)
 From Sci Require Import Combine.Model Combine.Spec Combine.Obs Combine.Proofs Combine.ProofsEnc Combine.ProofsC19 Combine.ProofsBound
-  Combine.ProofsDecode Combine.ProofsReparse Combine.ProofsOrder Combine.ProofsPerm Combine.ProofsUseless Combine.ProofsFifo.
+  Combine.ProofsDecode Combine.ProofsReparse Combine.ProofsOrder Combine.ProofsPerm Combine.ProofsUseless Combine.ProofsFifo Combine.ProofsC04 Combine.ProofsPath Combine.ProofsWF.
 From Coq Require Import Permutation.
 Local Open Scope N_scope.
 
@@ -162,3 +162,34 @@ Proof.
     + unfold input_segments. rewrite !map_app, <- !app_assoc. reflexivity.
 Qed.
 Print Assumptions useless_segment_ignored.
+
+(** Peer-index consistency between graph construction and path construction, for ALL segment
+    lists: whenever an edge of a search solution carries a peer index, that index addresses an
+    existing peer entry of the AS entry at the edge's shortcut index (counted over ALL peer
+    entries of that AS entry), the peering vertex the edge is attached to was built from the
+    ids of that very peer entry, and the hop field the path emits for that AS entry is the hop
+    field of that very peer entry.  (An implementation that numbers peer entries differently
+    when building the graph and when building the path violates the correspondence; the
+    harness feeds AS entries with several peer entries, unusable ones in front.) *)
+Theorem peer_index_consistent :
+  forall Hid ord_v ord_e src dst cores non_cores g sol e pi,
+    order_ok ord_v ord_e ->
+    add_segments [] (input_segments Hid cores non_cores) = Ok g ->
+    In sol (get_paths ord_v ord_e g src dst) -> In e (so_edges sol) -> e_peer (se_edge e) = Some pi ->
+    exists leaf ae p,
+      last_ia (is_seg (se_seg e)) = Some leaf
+      /\ nth_error (sg_entries (is_seg (se_seg e))) (e_idx (se_edge e)) = Some ae
+      /\ nth_error (ae_peers ae) pi = Some p
+      /\ ((se_src e = VAS leaf /\ se_dst e = VPeer (ae_ia ae) (hf_in (pe_hf p)) (pe_ia p) (pe_if p))
+          \/ (se_src e = VPeer (pe_ia p) (pe_if p) (ae_ia ae) (hf_in (pe_hf p)) /\ se_dst e = VAS leaf))
+      /\ item_hf (e_idx (se_edge e)) (e_peer (se_edge e)) (e_idx (se_edge e), ae) = pe_hf p
+      /\ In (pe_hf p) (edge_hops e).
+Proof.
+  intros Hid ord_v ord_e src dst cores non_cores g sol e pi [Hv He] Hg Hsol He' Hp.
+  destruct (add_segments_inv (input_segments Hid cores non_cores) [] GInv_nil) as (g' & Hg' & HI).
+  rewrite Hg in Hg'. inversion Hg'; subst g'.
+  pose proof (get_paths_full ord_v ord_e Hv He g src dst HI) as Hfull. rewrite Forall_forall in Hfull.
+  specialize (Hfull sol Hsol). rewrite Forall_forall in Hfull.
+  exact (peer_edge_consistent e pi (Hfull e He') Hp).
+Qed.
+Print Assumptions peer_index_consistent.
